@@ -24,7 +24,7 @@ ASSUMPTIONS = [
     "all block writes go through zarr.Array.__setitem__ (apply_blockwise and ZarrV3ArrayGroup.set_basic_selection do)",
     "under the processes executor block writes happen in worker processes and are not observed by this hook; it is run on single-threaded and threads",
 ]
-NSHARDS = {"quick": 16, "thorough": 32}
+NSHARDS = {"quick": 16, "thorough": 16}
 PER_SHARD = {"quick": 100, "thorough": 600}
 
 
@@ -135,8 +135,8 @@ def finalize(tier, merged):
     return {
         "rule": RULE,
         "floors": [
-            ("block writes observed", c.get("block_writes", 0), 20000 if tier == "quick" else 250000),
-            ("arrays whose declared metadata was compared with the stored array", c.get("backing_arrays_compared", 0), 1000 if tier == "quick" else 12000),
+            ("block writes observed", c.get("block_writes", 0), 20000 if tier == "quick" else 125000),
+            ("arrays whose declared metadata was compared with the stored array", c.get("backing_arrays_compared", 0), 1000 if tier == "quick" else 6000),
         ],
         "assumptions": ASSUMPTIONS,
     }
